@@ -602,12 +602,20 @@ def check_values(ctx, fb):
     it = c15.get(fb, "optimal", "set_range")
     eng = Engine(fb, inline=lambda i: False)
     ok, why = False, "no store loop found"
-    for b in eng.run(it):
+    runs = eng.run(it)
+    store_loops = {b.loop for b in runs if b.kind == "backedge" and b.calls(r"HashMap::<K, V, S, A>::insert$")}
+    skipping = [b for b in runs if b.kind == "backedge" and b.loop in store_loops and len(b.calls(r"HashMap::<K, V, S, A>::insert$")) != 1]
+    for b in runs:
         if b.kind != "backedge":
             continue
         ins = b.calls(r"HashMap::<K, V, S, A>::insert$")
         if len(ins) != 1:
             continue
+        if skipping:
+            # every iteration stores its leaf, whatever its value (a batch that writes the default value over an occupied position
+            # must replace it)
+            ok, why = False, "an iteration of the store loop does not store its leaf (conditions %s)" % [(sh(a, 60), v) for a, v in skipping[0].conds()][-2:]
+            break
         key, val = norm_loopvars(ins[0][2][1]), norm_loopvars(ins[0][2][2])
         if key[0] == "tuple" and len(key[1]) == 2 and isinstance(key[1][1], tuple) and key[1][1][:2] == ("bin", "Add"):
             ops = set(key[1][1][2:])
